@@ -292,7 +292,8 @@ def run(ctx):
                                    f"fock_probabilities_map[{v}] = {float(table.get(v, 0.0)) if v else 'negative entry'} but the dilation gives {probs.get(v, 0.0) if v else ''} after {name} on {inp} (table sums to {sum(map(float, table.values())):.6f})", replay)
                     nrm = float(st_p.norm)
                     if abs(nrm - sum(probs.values())) > 1e-9:
-                        ctx.report(f"C05:norm:{'lossy' if lossy else 'lossless'}:{'post' if post else 'nopost'}", f"norm = {nrm:.9f}, dilation gives {sum(probs.values()):.9f} after {name}", replay)
+                        cplx = "complex-transmission" if np.abs(np.imag(np.asarray(st_p.interferometer))).max() > 1e-12 else "real-transmission"
+                        ctx.report(f"C05:norm:{'lossy' if lossy else 'lossless'}:{'post' if post else 'nopost'}:{cplx}", f"norm = {nrm:.9f}, dilation gives {sum(probs.values()):.9f} after {name}", replay)
                 except NotImplementedCalculation:
                     counters["not_implemented"] += 1
                 except Exception as e:  # noqa
